@@ -437,7 +437,7 @@ fn fnv(s: &str) -> u64 {
 
 pub struct Literals;
 
-const ESCAPES: [(&str, &str); 23] = [
+const ESCAPES: [(&str, &str); 30] = [
     // supplementary planes through surrogate-pair escapes (plane 2, plane 16) and raw
     ("\\ud840\\udc0b", "\u{2000b}"),
     ("\\udbff\\udfff", "\u{10ffff}"),
@@ -463,6 +463,14 @@ const ESCAPES: [(&str, &str); 23] = [
     ("\\u0041", "A"),
     ("\\u00e9", "é"),
     ("x", "x"),
+    // plain text that reads like the tail of an escape when a backslash happens to stand before it
+    ("u0041", "u0041"),
+    ("ud83d", "ud83d"),
+    ("n", "n"),
+    ("t", "t"),
+    ("b", "b"),
+    ("/", "/"),
+    ("r", "r"),
 ];
 
 impl Family for Literals {
@@ -473,7 +481,7 @@ impl Family for Literals {
         &["C11"]
     }
     fn rule(&self) -> &'static str {
-        "string literal spellings: every escape the lexer accepts alone and in every ordered pair; multi-line strings of 2-3 lines over {empty, quote, backslash, spaces, non-ASCII}, each also in a file with CR LF line ends (as are the single escapes); the AST value and the text printed by the compiled program (through the Go model) must equal the denoted characters; distinct = distinct literal spellings"
+        "string literal spellings: every escape the lexer accepts, and 7 pieces of plain text that read like the tail of an escape (u0041, n, t, ...), alone and in every ordered pair; multi-line strings of 2-3 lines over {empty, quote, backslash, spaces, non-ASCII}, each also in a file with CR LF line ends (as are the single escapes); the AST value and the text printed by the compiled program (through the Go model) must equal the denoted characters; distinct = distinct literal spellings"
     }
     fn cases(&self, _tier: Tier) -> Box<dyn Iterator<Item = Value> + '_> {
         let mut v = Vec::new();
